@@ -304,6 +304,8 @@ func c16Tree() *Tree {
 	// a file of the same relative path below the template directory: EvaluateFile never looks there
 	t.files["tpl/files/f.tw"] = "not this one {{ who }}"
 	t.files["tpl/dotname.tw"] = "{{ user.name }}|@each(q in [1, 2]){{ user.name }}@end"
+	// string literals with characters that are escaped when the literal is evaluated: the loaded program is the same after every render
+	t.files["tpl/lits.tw"] = "{{ \"Fish & Chips\" }}|{{ who == \"Ann\" ? \"<b>x</b>\" : \"it's\" }}|@each(q in [1, 2]){{ \"a<b\" }}@end|{{ 'q\"q' }}"
 	return t
 }
 
@@ -321,6 +323,7 @@ func c16Ops() []string {
 		opStr("dotname", gvMap("user", gvMap("name", gvStr("lower"), "Name", gvStr("UPPER")))),
 		opEvs("{{ r.a }}-{{ r.b }}", gvMap("r", gvNamed(0))), opEvs("{{ r.b }}-{{ r.c }}-{{ r.a }}", gvMap("r", gvNamed(1))), opEvs("{{ r.name }}-{{ r.tags[0] }}", gvMap("r", gvNamed(2))),
 		opStr("elseifdata", d1), opStr("elseifdata", d2), opStr("slotdata", d1), opStr("slotdata", d2), opStr("ternarydata", d1), opStr("ternarydata", d2),
+		opStr("lits", d1), opStr("lits", d2), opResp("lits", d1), opEvs("{{ \"a & b\" }}{{ '<i>' }}", nil),
 	}
 }
 
